@@ -585,9 +585,9 @@ func verifHarnessC13FlushAfterFailedWrite() {
 	assume(verifStoreInv(s))
 	// step 1: a poll installs something while the cache is unwritable
 	updates := map[string]*api.SecretValue{}
-	mapEachP(s.active.m, func(name string, _ *cachedSecret, present bool) {
-		mapPutIf(updates, name, &api.SecretValue{Value: nondetSeq("upd.val"), Version: api.SecretVersion(nondetU32("upd.ver"))}, and(present, nondetBool("upd.p")))
-	})
+	for _, sl := range verifSlots {
+		mapPutIf(updates, sl.name, &api.SecretValue{Value: nondetSeq("upd.val"), Version: api.SecretVersion(nondetU32("upd.ver"))}, and(sl.present, nondetBool("upd.p")))
+	}
 	cache.failing = true
 	err := s.applyUpdates(updates)
 	if len(updates) > 0 {
